@@ -308,12 +308,49 @@ def assume_result_of_call(fn, call_block, is_ok):
     if t["k"] != "call" or t["dest"]["proj"]:
         return fn.cfg()
     locs, _ = flows(fn, t["dest"]["local"])
+    locs = set(locs)
+    if not is_ok:
+        # an Err that is re-wrapped (`r.map(f)` keeps `Err(e)` as `Err(e)`; `.map_err(g)` builds `Err(g(e))`) is still an
+        # Err: results rebuilt from the error payload of an assumed-Err value are assumed Err as well
+        for _ in range(4):
+            grew = False
+            for b2 in fn.cfg():
+                for st in fn.blocks[b2]["stmts"]:
+                    rv = st["rv"]
+                    if st["place"]["proj"] or st["place"]["local"] in locs:
+                        continue
+                    if rv["k"] == "aggregate" and rv["kind"].get("agg") == "adt" and rv["kind"].get("variant") == "Err" and rv["kind"]["adt"].endswith("result::Result") and rv["ops"]:
+                        pl0 = op_place(rv["ops"][0])
+                        ok_src = False
+                        if pl0 is not None:
+                            if pl0["local"] in locs and any(e.get("k") == "downcast" and e.get("variant") in ("Err", "Break") for e in pl0["proj"]):
+                                ok_src = True
+                            elif not pl0["proj"]:
+                                # Err(g(e)) with e moved out of the assumed-Err value
+                                ds0 = fn.whole_defs(pl0["local"])
+                                for d0 in ds0:
+                                    srcs = []
+                                    if d0[0] == "stmt" and d0[1]["k"] == "use":
+                                        srcs = [op_place(d0[1]["op"])]
+                                    elif d0[0] == "call":
+                                        srcs = [op_place(a_) for a_ in d0[1]["args"]]
+                                    for sp in srcs:
+                                        if sp is not None and sp["local"] in locs and any(e.get("k") == "downcast" and e.get("variant") in ("Err", "Break") for e in sp["proj"]):
+                                            ok_src = True
+                        if ok_src and len(fn.whole_defs(st["place"]["local"])) == 1:
+                            more, _ = flows(fn, st["place"]["local"])
+                            locs |= set(more)
+                            grew = True
+            if not grew:
+                break
     removed = set()
     for sb in fn.cfg():
         tt = fn.blocks[sb]["term"]
         if tt["k"] == "switch":
             p = op_place(tt["discr"])
             ds = fn.whole_defs(p["local"]) if p is not None and not p["proj"] else []
+            if len(ds) > 1 and all(d[0] == "stmt" and d[1] == ds[0][1] for d in ds):
+                ds = ds[:1]            # copies of one statement made by jump threading
             if len(ds) == 1 and ds[0][0] == "stmt" and ds[0][1]["k"] == "discr" and not ds[0][1]["place"]["proj"] and ds[0][1]["place"]["local"] in locs:
                 ty = fn.local_ty(ds[0][1]["place"]["local"])
                 if ty in ("?", ""):
